@@ -268,7 +268,7 @@ def step_justification_font(tmp):
     return p
 
 
-def lineend_fonts(tmp, names=("charis_r_gr.ttf", "Padauk.ttf", "Scheherazadegr.ttf")):
+def lineend_fonts(tmp, names=("charis_r_gr.ttf", "Padauk.ttf", "Scheherazadegr.ttf", "Charis5_eursub.ttf")):
     """Shipped fonts with bit 0 of the Silf flags set ("line end contextuals": gr_seg_justify brackets the line with
     marker slots while the justification passes run, and removes them again).  Valid; no shipped font sets it."""
     from fontgen import sfnt
@@ -413,3 +413,34 @@ def twolevel_font(tmp):
     t["Silf"] = bytes(silf)
     open(p, "wb").write(sfnt.build_sfnt(t))
     return p
+
+
+def stress_jobs(opts=0, long_n=70000):
+    """Inputs at the edges of the engine's own limits: a base under 60..130 stacked combining marks (attachment chains as
+    deep as the stack), texts of more than 65536 characters (every per-slot and per-character index beyond 16 bits),
+    and segments that are justified before they are looked at (per-slot justification records of more than one pool block)."""
+    out = []
+    charis = os.path.join(F, "charis_r_gr.ttf")
+    for n in (60, 99, 100, 101, 130):
+        for d in (0, 1):
+            out.append({"font": charis, "cps": [0x61] + [0x0301] * n + [0x62], "dir": d, "opts": opts, "ppm": 0, "id": "markstack:%d:d%d" % (n, d)})
+    for font, unit in ((os.path.join(F, "Padauk.ttf"), [0x1000, 0x1031, 0x102C, 0x20]), (charis, [0x61, 0x0301, 0x62, 0x20, 0x63])):
+        out.append({"font": font, "cps": (unit * (long_n // len(unit) + 1))[:long_n], "dir": 0, "opts": opts, "ppm": 0, "id": "long:%s" % os.path.basename(font)})
+    for font in ("Padauk.ttf", "charis_r_gr.ttf", "Scheherazadegr.ttf"):
+        for k, t in enumerate(("HelloMum", "a b c d e f g h", "The quick brown fox jumps over the lazy dog", "\u1000\u1031\u102c \u1000\u1031 \u1019", "\u0627\u0644\u0633\u0644\u0627\u0645 \u0639\u0644\u064a\u0643\u0645")):
+            for ppm in (0, 12):
+                out.append({"font": os.path.join(F, font), "cps": [ord(c) for c in t], "dir": 1 if font.startswith("Sch") else 0, "opts": opts, "ppm": ppm, "justify": 1, "id": "justified:%s:%d:%d" % (font, k, ppm)})
+    return out
+
+
+def advy_jobs(tmp):
+    """A synthesised font one of whose rules gives a glyph a vertical advance (no shipped font has one)."""
+    from fontgen import gfont, gdl
+    p = os.path.join(tmp, "advy.ttf")
+    if not os.path.exists(p):
+        keep = dict(op="keep", cls=0, ref=0, adv=-1, user=-1, user2=-1, shift=-1, att=-1, attref=-1, sf=0, sv=0)
+        none = {"kind": "none", "item": 0, "val": 0, "f": 0}
+        prog = [{"kind": "pos", "rules": [{"pre": 0, "ctx": [1], "items": [dict(keep, advy=130, adv=420)], "con": none, "ret": 0}]}]
+        m = gdl.font_model(prog, [[1, 2], [3]], [0, 500, 600, 450, 700], [0] * 5, 0)
+        open(p, "wb").write(gfont.build_font(m))
+    return [{"font": p, "cps": [ord(c) for c in t], "dir": d} for t in ("a", "abc", "cabbac", "ccc") for d in (0, 1)]
